@@ -273,3 +273,37 @@ harness_g!(name=c02_reject_7, prop=C02, mode=R, kind=mustpanic, tier=quick, unwi
 harness_g!(name=c02_reject_8, prop=C02, mode=R, kind=mustpanic, tier=quick, unwind=6, { reject(8) });
 harness_g!(name=c02_reject_9, prop=C02, mode=R, kind=mustpanic, tier=quick, unwind=6, { reject(9) });
 harness_g!(name=c02_reject_10, prop=C02, mode=R, kind=mustpanic, tier=quick, unwind=6, { reject(10) });
+
+// @claim c02_binomial_big_: at the top of the 64-bit range (n = 63..67, k near n/2; one instance per pair, p symbolic) the mass is C(n,k) p^k (1-p)^(n-k) with the exact integer coefficient and no overflow panic (R; the coefficient loop is concrete and folds in the symbolic executor)
+fn binomial_big(n: u64, k: i64, coeff: u64) {
+    let p = par(0, 0.0, 1.0);
+    let d = Binomial::new(n, p);
+    let got = d.pmf(k);
+    let want = coeff as f64 * p.powi(k as i32) * (1.0 - p).powi((n as i64 - k) as i32);
+    vclose!(got, want, 1e-9 * (1.0 + fabs(want)), "Binomial({}, p).pmf({})", n, k);
+}
+harness_g!(name=c02_binomial_big_64_32, prop=C02, mode=R, kind=normal, tier=quick, unwind=40, { binomial_big(64, 32, 1832624140942590534) });
+harness_g!(name=c02_binomial_big_67_33, prop=C02, mode=R, kind=normal, tier=quick, unwind=40, { binomial_big(67, 33, 14226520737620288370) });
+harness_g!(name=c02_binomial_big_66_33, prop=C02, mode=R, kind=normal, tier=quick, unwind=40, { binomial_big(66, 33, 7219428434016265740) });
+harness_g!(name=c02_binomial_big_63_31, prop=C02, mode=R, kind=normal, tier=quick, unwind=40, { binomial_big(63, 31, 916312070471295267) });
+
+// @claim c02_setters_: the density keeps matching the textbook formula of the CURRENT parameters after setters (Beta, Gamma; cached state must follow)
+harness_g!(name=c02_setters_beta, prop=C02, mode=R, kind=normal, tier=quick, unwind=6, {
+    let (a0, b0) = (par(3, 1.0e-3, 1.0e3), par(4, 1.0e-3, 1.0e3));
+    let (a, b, x) = (par(0, 1.0e-3, 1.0e3), par(1, 1.0e-3, 1.0e3), par(2, 0.0, 1.0));
+    let mut d = Beta::new(a0, b0);
+    d.set_alpha(a).set_beta(b);
+    let want = x.powf(a - 1.0) * (1.0 - x).powf(b - 1.0) * g(a + b) / (g(a) * g(b));
+    vclose!(d.pdf(x), want, rel(want), "Beta pdf after setters");
+    let mut e = Beta::new(a0, b0);
+    e.update(&[a, b]);
+    vclose!(e.pdf(x), want, rel(want), "Beta pdf after update");
+});
+harness_g!(name=c02_setters_gamma, prop=C02, mode=R, kind=normal, tier=quick, unwind=6, {
+    let (a0, b0) = (par(3, 1.0e-3, 1.0e3), par(4, 1.0e-3, 1.0e3));
+    let (a, b, x) = (par(0, 1.0e-3, 1.0e3), par(1, 1.0e-3, 1.0e3), par(2, 1.0e-3, 1.0e3));
+    let mut d = Gamma::new(a0, b0);
+    d.set_beta(b).set_alpha(a);
+    let want = b.powf(a) * x.powf(a - 1.0) * (-b * x).exp() / g(a);
+    vclose!(d.pdf(x), want, rel(want), "Gamma pdf after setters");
+});
